@@ -376,8 +376,8 @@ func runShare(tw *traceWriter, secring, in string, random, rreq int, seed int64,
 			if err != nil {
 				fatal(err)
 			}
-			if state == "grown" {
-				runGrown(tw, sw, built, env, now, byWorld[wi+1])
+			if state == "grown" || state == "regrown" {
+				runGrown(tw, sw, built, env, now, byWorld[wi+1], state == "regrown")
 				continue
 			}
 			for _, it := range sw.Items {
@@ -420,7 +420,11 @@ func runShare(tw *traceWriter, secring, in string, random, rreq int, seed int64,
 // deletions) arrive one by one AFTER the handler has already answered the world's requests; after every arrival the
 // same requests are asked again. Each phase is logged as a world of its own (the late items not yet stored), so the
 // specification judges every answer against the store as it was at that moment.
-func runGrown(tw *traceWriter, sw *SWorld, built *world.Built, env *idx.Env, now int, reqs []SReq) {
+//
+// reopenEach ("regrown"): the index is additionally closed and re-opened on the same rows (a new handler on top)
+// BEFORE every late arrival, so each delete claim lands on an index whose deletes cache was loaded from rows and
+// is then updated incrementally.
+func runGrown(tw *traceWriter, sw *SWorld, built *world.Built, env *idx.Env, now int, reqs []SReq, reopenEach bool) {
 	var late []int
 	for _, it := range sw.Items {
 		if it.Stored && it.Kind == "delete" {
@@ -453,6 +457,16 @@ func runGrown(tw *traceWriter, sw *SWorld, built *world.Built, env *idx.Env, now
 	}
 	for phase := 0; phase <= len(late); phase++ {
 		if phase > 0 {
+			if reopenEach {
+				if env, err = env.Reopen(false); err != nil {
+					fatal(err)
+				}
+				h, err = blobserver.CreateHandler("share", &shareLoader{sto: env.Src, ix: env.Ix},
+					jsonconfig.Obj{"blobRoot": "/bs/", "index": "/index/"})
+				if err != nil {
+					fatal("CreateHandler(share):", err)
+				}
+			}
 			if err := env.Deliver(built, late[phase-1]); err != nil {
 				fatal("delivering late item", late[phase-1], "of", sw.Name, err)
 			}
@@ -463,7 +477,7 @@ func runGrown(tw *traceWriter, sw *SWorld, built *world.Built, env *idx.Env, now
 			items[id-1].Stored = false
 		}
 		view := &SWorld{Name: sw.Name, Items: items}
-		tw.emit(map[string]any{"ev": "world", "name": sw.Name, "state": "live", "phase": phase, "now": now, "items": items, "refs": refs})
+		tw.emit(map[string]any{"ev": "world", "name": sw.Name, "state": "live", "phase": phase, "regrown": reopenEach, "now": now, "items": items, "refs": refs})
 		for _, r := range reqs {
 			ev := doShareReq(h, view, built, r)
 			if phase < len(late) {
